@@ -6,6 +6,8 @@ import (
 	"github.com/shopspring/decimal"
 	"hash/fnv"
 	"math/rand"
+	"os"
+	"path/filepath"
 	"regexp"
 	"runtime"
 	"sort"
@@ -128,6 +130,9 @@ var c18Templates = map[string]string{
 	"fsec.html": "{% filter escape %}<s>{{ x }}{% for i in items %}{{ i|escape }}{% endfor %}</s>{% endfilter %}|{% filter upper|escape %}<u>{{ x|e }}{% endfilter %}|{% filter e %}'{{ x|raw }}'{% endfilter %}",
 	"fsec.txt":  "{% filter lower|title|trim|capitalize %} {{ x }} {% filter nl2br|striptags|url_encode %}a\nb{{ x }}{% endfilter %}{% endfilter %}{% filter raw %}{{ x }}{% endfilter %}{% filter escape %}<{{ x }}>{{ meet() }}{% endfilter %}",
 	"fsec.js":   "{% filter escape %}'{{ x }}'{% filter e %}{{ x|escape }}{% endfilter %}{% endfilter %}{{ x|escape('html') }}{{ x|e }}",
+	// templates that ask for templates nobody has, each under another name
+	"miss1.html": "a{% include 'nothere-1' %}b", "miss2.txt": "{% extends 'nothere-22' %}{% block b %}x{% endblock %}", "miss3.html": "p{% import 'nothere-333' as m %}{{ m.x() }}q",
+	"miss4.js": "{% for i in 1..3 %}{% include 'gone' ~ i %}{% endfor %}", "miss5.html": "{% embed 'nothere-55555' %}{% endembed %}", "miss6.txt": "{% use 'nothere-6' %}{% from 'nothere-66' import a %}",
 	"tests.txt": "{{ 4 is pos }}{{ 0 is not pos }}{% for i in items if i %}{{ loop.index }}{{ i }}{% else %}none{% endfor %}",
 }
 
@@ -201,9 +206,68 @@ func c18Build(seed int64, n int) {
 	}
 }
 
+// c18memLoader is the Twig environment's loader. It has one error value for "no such template" (and a second one
+// that carries a path): a loader may hand out the same read-only error to every caller - it is race-free as long
+// as nobody writes to it. Every environment has its own loader and so its own error values.
+type c18memLoader struct {
+	inner              *stick.MemoryLoader
+	notFound, notThere *os.PathError
+}
+
+func newC18memLoader() *c18memLoader {
+	return &c18memLoader{inner: &stick.MemoryLoader{Templates: c18All},
+		notFound: &os.PathError{Op: "load", Path: "", Err: os.ErrNotExist}, notThere: &os.PathError{Op: "load", Path: "(a template)", Err: os.ErrNotExist}}
+}
+
+func (l *c18memLoader) Load(name string) (stick.Template, error) {
+	if _, ok := l.inner.Templates[name]; !ok {
+		if len(name)%3 != 0 {
+			return nil, l.notFound
+		}
+		return nil, l.notThere
+	}
+	return l.inner.Load(name)
+}
+
+var (
+	c18fsOnce sync.Once
+	c18fsRoot string // relative to the working directory
+)
+
+// c18fsDir writes the templates to a directory (the same bytes from every worker process: a file that is there
+// is left alone, a new one is moved into place) and returns its path relative to the working directory - the
+// core environment loads from the file system, through a root directory given the way programs usually give it.
+func c18fsDir() string {
+	c18fsOnce.Do(func() {
+		base := os.Getenv("VERIF_DIR")
+		if base == "" {
+			base = os.TempDir()
+		}
+		dir := filepath.Join(base, "work", "C18", "fsroot")
+		for name, src := range c18All {
+			path := filepath.Join(dir, filepath.FromSlash(name))
+			if old, err := os.ReadFile(path); err == nil && string(old) == src {
+				continue
+			}
+			os.MkdirAll(filepath.Dir(path), 0o755)
+			tmp := fmt.Sprintf("%s.%d.tmp", path, os.Getpid())
+			if err := os.WriteFile(tmp, []byte(src), 0o644); err == nil {
+				os.Rename(tmp, path)
+			}
+		}
+		wd, _ := os.Getwd()
+		rel, err := filepath.Rel(wd, dir)
+		if err != nil {
+			rel = dir
+		}
+		c18fsRoot = rel
+	})
+	return c18fsRoot
+}
+
 func c18NewEnvs() (*stick.Env, *stick.Env) {
-	tw := twig.New(&stick.MemoryLoader{Templates: c18All})
-	co := stick.New(&stick.MemoryLoader{Templates: c18All})
+	tw := twig.New(newC18memLoader())
+	co := stick.New(stick.NewFilesystemLoader(c18fsDir()))
 	for _, e := range []*stick.Env{tw, co} {
 		e.Functions["pure"] = func(ctx stick.Context, args ...stick.Value) stick.Value { return "pure:" + ctx.Name() }
 		// meet() holds a caller at the bottom of the include chain until every caller of the round has got there
